@@ -45,6 +45,7 @@ type scenario struct {
 	Conn   string    `json:"conn"` // buffer | dpipe | udp | vnet | bridge | vnetdial (a connected vnet socket)
 	CloseFuture bool `json:"closeFuture,omitempty"` // closeThen: the deadline is a near future one when the connection is closed and passes afterwards
 	CloseThen bool   `json:"closeThen,omitempty"` // buffer, udp: at the end the deadline is set to the past, the connection closed, the deadline cleared: reads must not time out any more
+	Interrupt int    `json:"interrupt,omitempty"` // a read still blocked at the end is interrupted: deadline set to the past and at once moved on (1: cleared, 2: an hour ahead)
 	Sets   []setOp   `json:"sets"`
 	Sets2  []setOp   `json:"sets2,omitempty"` // a second worker setting deadlines concurrently
 	Reads  []readOp  `json:"reads"`
@@ -119,6 +120,9 @@ func gen(r *harn.Rng, tier string) interface{} {
 	}
 	sc.CloseThen = (sc.Conn == "buffer" || sc.Conn == "udp" || sc.Conn == "bridge") && r.Bool(0.3)
 	sc.CloseFuture = r.Bool(0.5)
+	if r.Bool(0.4) {
+		sc.Interrupt = r.Range(1, 2)
+	}
 	return sc
 }
 
@@ -536,6 +540,36 @@ func run(env *simrt.Env, sci interface{}) {
 				env.Fail("C10/expiry-not-persistent", "%s: read #%d [%s, %s] returned (%d, %v) although the deadline in force (%s) has passed and has not been set again (%s)", sc.Conn, i, rel(r.tInv), rel(r.tRet), r.n, r.err, rel(vals[0]), why)
 				return
 			}
+		}
+	}
+	if sc.Interrupt > 0 && sc.Conn != "bridge" {
+		// The interrupt idiom. The system is quiescent, so a read that has not returned is parked
+		// inside the read, waiting. Its deadline now passes (set to the past): the read is released
+		// with a timeout, and moving the deadline on right afterwards does not take that back.
+		blocked := -1
+		for i, r := range reads {
+			if r != nil && !r.done {
+				blocked = i
+			}
+		}
+		if blocked >= 0 {
+			_ = c.setRead(env.Now().Add(-time.Millisecond))
+			if sc.Interrupt == 1 {
+				_ = c.setRead(time.Time{})
+			} else {
+				_ = c.setRead(env.Now().Add(time.Hour))
+			}
+			env.QuiesceWithin(time.Millisecond)
+			r := reads[blocked]
+			if !r.done {
+				env.Fail("C10/blocked-past-deadline", "%s: read #%d was blocked when its deadline was set to the past (and then moved on at once): the deadline passed while it waited, yet it is still blocked", sc.Conn, blocked)
+				return
+			}
+			if !isTimeout(r.err) {
+				env.Fail("C10/blocked-past-deadline", "%s: read #%d was blocked with no data when its deadline was set to the past; it returned (%d, %v) instead of a timeout", sc.Conn, blocked, r.n, r.err)
+				return
+			}
+			env.Probe("interrupted-read")
 		}
 	}
 	_ = c.setRead(env.Now().Add(-time.Hour)) // release a reader that is still waiting
